@@ -308,7 +308,7 @@ pub fn crash_explore_mode(o: &mut Outcome, plans: &[Plan], deadline: Instant, q:
                                 let mut h = std::collections::hash_map::DefaultHasher::new();
                                 show_content(&content).hash(&mut h);
                                 local_out.insert(h.finish());
-                                if torn.is_none() && exact.is_some() {
+                                if exact.is_some() {
                                     if let Err((c, d)) = suffix_check(&dir, &pl.cfg, &content) {
                                         report(c, d, n, call, torn);
                                     }
@@ -469,7 +469,7 @@ pub fn run(tier: &str) -> i32 {
     let t0 = Instant::now();
     let mut o = Outcome::new("C02", tier, "fault_enumeration");
     let q = tier == "quick";
-    let deadline = t0 + Duration::from_secs_f64(if q { 42.0 } else { 1150.0 });
+    let deadline = t0 + Duration::from_secs_f64(if q { 34.0 } else { 1150.0 });
     o.cov("exhaustive", json!(true));
     crash_explore(&mut o, &plans(tier), deadline, q, if q { 2 } else { 12 }, "");
     o.cov("rule", json!("programs = all maximal operation programs of the plan's alphabet up to its depth (enumerated on the real code); each is executed once by a child process under the LD_PRELOAD shim, which copies the database directory before EVERY file-mutating libc call (crash image = what a process killed there leaves); every distinct image taken after the first open returned, plus marker-edge/middle/end splits of every journal write() and the middle split of every other write(), is recovered by the real code: open must succeed, all keyspaces together must equal the model after `acked` or `acked+1` operations, then overwrites/removes/reopen must behave. Each evaluated image is a distinct directory state. (Every byte split of journal appends is enumerated by C03.)"));
